@@ -16,6 +16,7 @@ func init() {
 			return ex.NewInput(strOf(a[0]), w)
 		}
 	}
+	v("Register", func(ex *Exec, fr *Frame, a []Value) Value { return nil })
 	v("Int64", input(64))
 	v("Int", input(64))
 	v("Uint64", input(64))
@@ -33,6 +34,10 @@ func init() {
 	v("Choose", func(ex *Exec, fr *Frame, a []Value) Value {
 		x := ex.NewInput(strOf(a[0]), 64)
 		ex.Assume(term.And(term.Sle(mkInt(0), x), term.Slt(x, a[1].(*term.T))))
+		if f, ok := ex.Cfg.Bounds["fix."+strOf(a[0])]; ok {
+			// this worker explores one value of the shape variable only
+			ex.Assume(term.Eq(x, mkInt(int64(f))))
+		}
 		return mkInt(ex.ConcInt(x, "shape "+strOf(a[0])))
 	})
 	v("Bytes", func(ex *Exec, fr *Frame, a []Value) Value {
